@@ -177,6 +177,37 @@ def run(res, tier):
                        'and in that case the source is read after it was freed' % (f.q, (bad[0].get('q') or '').split('::')[-1] if bad else '', bad[0].get('l') if bad else '', cps[0].get('n'), bad[1].get('l') if bad else ''))
     if n_ll < 5 or n_sa < 2:
         raise AnalysisBroken('LENGTH-LAST / SELF-ALIAS matched %d / %d String methods' % (n_ll, n_sa))
+    # ---- CHAR-ORDER: "same as strcmp() except ...": bytes are ordered as unsigned values
+    from msa import guards as G
+    res.rule('CHAR-ORDER', 'in util/String.cpp an ordering comparison (<, <=, >, >=) of two non-constant operands of plain `char` type (a signed type here) is made only where both operands are known to be '
+                           'digits: strcmp(), memcmp() and String::CompareTo() order bytes as unsigned char, so for a byte >= 0x80 (any multi-byte UTF-8 character) a signed comparison gives the opposite sign', floor=2)
+    n_co = 0
+    CH = re.compile(r'^(const )?(char|nat_char)( const)?$')
+    for f in sorted((f for f in fx.funcs.values() if f.full and f.file.endswith('util/String.cpp')), key=lambda f: (f.file, f.line)):
+        for c in f.walk():
+            if c['k'] != 'BinaryOperator' or c.get('op') not in ('<', '<=', '>', '>=') or len(c['ch']) != 2:
+                continue
+            l_, r_ = A.strip_casts(c['ch'][0]), A.strip_casts(c['ch'][1])
+            if 'v' in l_ or 'v' in r_ or not CH.match(l_.type().strip()) or not CH.match(r_.type().strip()):
+                continue
+            # an explicit cast to unsigned char on the way is what makes it right
+            def has_ucast(e):
+                return any(x['k'] in ('CStyleCastExpr', 'CXXStaticCastExpr', 'CXXFunctionalCastExpr') and re.search(r'unsigned char|uint8', x.type()) for x in e.walk())
+            if has_ucast(c['ch'][0]) and has_ucast(c['ch'][1]):
+                continue
+            n_co += 1
+            digits = set()
+            for (cn, t) in G.atoms_at(f, c):
+                core, pol = A.bool_polarity(cn, t)
+                if pol and core.is_call() and re.search(r'(isdigit|IsDigit)$', core.get('q') or '') and core.args():
+                    digits.add(A.render_key(A.strip_casts(core.args()[0])))
+            ok = A.render_key(l_) in digits and A.render_key(r_) in digits
+            res.ob('CHAR-ORDER', f.where(c), '%s line %s: `%s` orders two chars that are both known to be digits' % (f.q.split('::')[-1], c.get('l'), c.text(30)), ok, function=f.q,
+                   key='CHAR-ORDER|%s|%s' % (f.q, c.text(30)),
+                   message='%s orders two bytes with `%s` on operands of type char (signed): NumericAwareStrcmp()/String::NumericAwareCompareTo() are documented as "same as strcmp() except that numbers '
+                           'sort numerically", but for the UTF-8 string "ete" with acute accents (bytes c3 a9 74 c3 a9) vs "zoo" strcmp() > 0 and this comparison says < 0 — every byte >= 0x80 sorts before all ASCII' % (f.q, c.text(30)))
+    if n_co < 2:
+        raise AnalysisBroken('CHAR-ORDER: only %d ordering comparisons of char operands found in util/String.cpp' % n_co)
     res.explanation = ('Static decision of the serialisation clause of C17 only: symbolic evaluation shows String::Flatten writes FlattenedSize() == Length()+1 bytes from Cstr(); the reader takes a NUL-terminated '
                        'string whose scan is bounded by the bytes available and whose failure sets the sticky status, which String::Unflatten consults before returning OK. '
                        'Everything else in C17 (in-memory operations, small-buffer boundary, aliasing) is not decided.')
